@@ -222,6 +222,9 @@ class Histories(BoundedCheck):
                     out.append(Violation('a failed creation leaves the variable list unchanged', 'c09.names-phantom', here, index_before, list(c.names)))
                 if strict and op[0] == 'setattr' and op[1] not in index_before and isinstance(raised, AttributeError):
                     res.cover('strict-blocked')
+                    near = [k for k in index_before if k.lower() == str(op[1]).lower()]
+                    if near and f"'{near[0]}'" not in str(raised):
+                        out.append(Violation('under strict a near-miss name is reported with the closest variable', 'c09.near-miss-not-reported', here, near[0], str(raised)[:100]))
                 if strict and op[0] == 'setattr' and (op[1] in index_before or op[1] in attrs_before) and isinstance(raised, AttributeError):
                     out.append(Violation('with strict=True updates of existing names keep working', 'c09.strict-blocks-existing', here, 'accepted', str(raised)[:80]))
             else:
